@@ -16,6 +16,8 @@ DECIDED = ('(a) the candidate list handed to the router evaluates to [verb, GET,
            'the 405 triple into HTTPError(405, Allow=<third element>); (e) the Allow text is computed from the route\'s '
            'method table at the time of the request (sorted, comma-joined) - not from a constant list and not from a memo. '
            'Given dict/list semantics these premises imply the statement for the route selected by C01.')
+DECIDED_MORE = ('Also: request.method is computed from the environ on every read (no memo).')
+DECIDED = DECIDED + ' ' + DECIDED_MORE
 NOT_DECIDED = 'which route the path selects (C01).'
 ASSUMPTIONS = ['dict and list behave as in CPython', 'C01 selects the route']
 
